@@ -36,7 +36,7 @@ func init() {
 			if tier == "thorough" {
 				return fw.Plan{Shards: 16, CasesPerShard: 2500, TimeoutSec: 3300}
 			}
-			return fw.Plan{Shards: 8, CasesPerShard: 60, TimeoutSec: 900}
+			return fw.Plan{Shards: 16, CasesPerShard: 60, TimeoutSec: 900}
 		},
 		Run: runC08,
 	})
